@@ -31,6 +31,8 @@ type FieldSpec struct {
 	Embedded *StructSpec
 	Prefix   string // embeddedPrefix ("" = none)
 	Ptr      bool   // field type is a pointer to the embedded struct
+	// Anonymous: a Go anonymous (embedded) field without the `embedded` tag
+	Anonymous bool
 }
 
 // StructSpec is an ordered list of fields.
@@ -42,7 +44,9 @@ type StructSpec struct {
 func (f *FieldSpec) Tag() string {
 	var parts []string
 	if f.Embedded != nil {
-		parts = append(parts, "embedded")
+		if !f.Anonymous {
+			parts = append(parts, "embedded")
+		}
 		if f.Prefix != "" {
 			parts = append(parts, "embeddedPrefix:"+f.Prefix)
 		}
@@ -94,6 +98,9 @@ func (s *StructSpec) String() string {
 		if i > 0 {
 			sb.WriteString("; ")
 		}
+		if f.Anonymous {
+			sb.WriteString("(anonymous)")
+		}
 		sb.WriteString(f.Name)
 		sb.WriteByte(' ')
 		if f.Embedded != nil {
@@ -116,7 +123,7 @@ func (s *StructSpec) String() string {
 func (s *StructSpec) Type() reflect.Type {
 	fields := make([]reflect.StructField, len(s.Fields))
 	for i, f := range s.Fields {
-		sf := reflect.StructField{Name: f.Name}
+		sf := reflect.StructField{Name: f.Name, Anonymous: f.Anonymous}
 		if f.Embedded != nil {
 			sf.Type = f.Embedded.Type()
 			if f.Ptr {
@@ -150,6 +157,21 @@ type Model struct {
 	Spec   *StructSpec
 	Type   reflect.Type
 	Leaves []*Leaf
+	// KeepGroups: pointer-embedded structs (keyed by GroupKeys) the record
+	// generator never leaves nil; OnKeptGroup is called whenever that overrides a draw.
+	KeepGroups  map[string]bool
+	OnKeptGroup func()
+}
+
+// GroupKeys returns the keys of the pointer-embedded structs above the leaf.
+func (l *Leaf) GroupKeys() []string {
+	var out []string
+	for h := range l.Path {
+		if l.PtrHop[h] {
+			out = append(out, fmt.Sprint(l.Path[:h+1]))
+		}
+	}
+	return out
 }
 
 // Build computes the struct type and the expected columns.
@@ -222,10 +244,17 @@ func (l *Leaf) Canon(rec reflect.Value) string {
 // Norm applies the leaf's equivalences to a canonical form: below a
 // pointer-embedded struct NULL ≡ zero value.
 func (l *Leaf) Norm(c string) string {
-	if l.UnderPtr && c == Null {
+	if l.NullIsZero() && c == Null {
 		return l.Kind.ZeroCanon
 	}
 	return c
+}
+
+// NullIsZero: the column may hold NULL where the struct holds the zero value
+// (leaf of a nil pointer-embedded struct, or a column whose zero fields are
+// left to a database-side default such as `default:null`).
+func (l *Leaf) NullIsZero() bool {
+	return l.UnderPtr || (l.Spec.Default != nil && l.Spec.Default.DB)
 }
 
 // IsZero mirrors gorm's notion of a zero field (reflect zero; absent parent = zero).
